@@ -122,6 +122,91 @@ def blocked_interval_rule(ctx: Ctx, rid: str):
         raise AnchorMissing(f"initScoreboard: {n} leave interval loops found (project-wide and own leaves expected)")
 
 
+def day_range_rule(ctx: Ctx, rid: str):
+    """`workinghours fri - mon` means Fri, Sat, Sun, Mon: a day range runs from its first day forward to its last, wrapping over the
+    week end.  The two indices are touched only through slices of the week list and one comparison, so the three orderings of
+    (first, last) decide everything: first <= last must give the single slice [first : last+1], first > last the two-part
+    list [first:] + [:last+1]; the lower bound derives from the first item only, the upper bound from the second only."""
+    from ..order import local_resolver, order_table
+    fn = ctx.repo.func("TJPTransformer.day_spec")
+    res = local_resolver(fn.node)
+    p_items = fn.params[1] if len(fn.params) > 1 else "items"
+
+    def item_refs(e, seen=None, depth=0):
+        """which of items[0] / items[1] the expression is computed from (through local names; tuple unpacking joins)"""
+        seen = seen if seen is not None else set()
+        out = set()
+        for x in ast.walk(e):
+            if isinstance(x, ast.Subscript) and norm(x.value) == p_items and isinstance(x.slice, ast.Constant):
+                out.add(x.slice.value)
+            elif isinstance(x, ast.Name) and isinstance(x.ctx, ast.Load) and x.id not in seen and depth < 8:
+                seen.add(x.id)
+                for v in res(x):
+                    out |= item_refs(v, seen, depth + 1)
+                # names bound by tuple unpacking: joined over the whole right-hand side
+                for a in own_nodes(fn):
+                    if isinstance(a, ast.Assign) and any(isinstance(t, (ast.Tuple, ast.List)) and any(isinstance(el, ast.Name) and el.id == x.id for el in t.elts)
+                                                         for t in a.targets):
+                        out |= item_refs(a.value, seen, depth + 1)
+        return out
+    week = [a for a in own_nodes(fn) if isinstance(a, (ast.Assign, ast.AnnAssign)) and isinstance(a.value, ast.List) and len(a.value.elts) == 7]
+    if not week:
+        raise AnchorMissing("day_spec: week list not found")
+    wk = norm(week[0].targets[0] if isinstance(week[0], ast.Assign) else week[0].target)
+
+    def slices(e):
+        """[(lower, upper)] of a concatenation of slices of the week list, or None"""
+        if isinstance(e, ast.BinOp) and isinstance(e.op, ast.Add):
+            a, b = slices(e.left), slices(e.right)
+            return a + b if a is not None and b is not None else None
+        if isinstance(e, ast.Subscript) and norm(e.value) == wk and isinstance(e.slice, ast.Slice) and e.slice.step is None:
+            return [(e.slice.lower, e.slice.upper)]
+        return None
+    from .common import enclosing_ifs
+    rets = [r for r in own_nodes(fn) if isinstance(r, ast.Return) and r.value is not None and slices(r.value) is not None]
+    if not rets:
+        raise Inconclusive("day_spec: the range branch does not return slices of the week list (shape not interpreted)")
+    covered = {"<": False, "=": False, ">": False}
+    for r in rets:
+        sl = slices(r.value)
+        lo, hi = sl[0][0], sl[-1][1]
+        lo_refs = item_refs(lo) if lo is not None else set()
+        hi_refs = item_refs(hi) if hi is not None else set()
+        ok_ends = lo_refs == {0} and hi_refs == {1} and isinstance(hi, ast.BinOp) and isinstance(hi.op, ast.Add) and norm(hi.right) == "1"
+        ctx.ob(rid, f"{fn.qual}: {norm(r.value)[:70]}: begins at the first day, ends with the last", (fn, r), ok_ends,
+               "lower bound from items[0] only, upper bound = index of items[1] + 1" if ok_ends else
+               f"the range's lower bound is computed from item(s) {sorted(lo_refs)} and its upper bound from {sorted(hi_refs)}: the listed days do "
+               "not run from the first named day to the last (e.g. the two ends are sorted, so `fri - mon` becomes Mon..Fri)",
+               key=key_of_text(rid, fn.qual, f"ends {len(sl)}"))
+        if not ok_ends:
+            continue
+        # orderings under which this return is taken
+        tab = {"<": True, "=": True, ">": True}
+        for i, b in enclosing_ifs(r, fn.node):
+            names_lo = lambda e: norm(e) == norm(lo)
+            names_hi = lambda e: isinstance(hi, ast.BinOp) and norm(e) == norm(hi.left)
+            t = order_table(i.test, names_lo, names_hi)
+            if all(v is None for v in t.values()):
+                continue
+            for k in tab:
+                v = t[k]
+                v = (not v) if (b != "T" and v is not None) else v
+                tab[k] = tab[k] and (v is not False)
+        single = len(sl) == 1
+        okshape = (single and not tab[">"]) or (len(sl) == 2 and not tab["<"] and not tab["="] and sl[0][1] is None and sl[1][0] is None)
+        for k in tab:
+            covered[k] = covered[k] or (tab[k] and okshape)
+        ctx.ob(rid, f"{fn.qual}: {norm(r.value)[:70]} taken when first {'/'.join(k for k in tab if tab[k])} last", (fn, r), okshape,
+               "single slice for first <= last, wrap-around pair for first > last" if okshape else
+               "this form of the list is returned under an ordering of the two days for which it is wrong (a single slice is empty when the "
+               "first day lies after the last; the two-part list repeats days otherwise)",
+               key=key_of_text(rid, fn.qual, f"shape {len(sl)}"))
+    okc = all(covered.values())
+    ctx.ob(rid, f"{fn.qual}: orderings handled {covered}", fn, okc, "first < last, first = last and first > last all yield the forward range" if okc else
+           "an ordering of the two days has no correct form: a wrap-around range such as `fri - mon` or `sun - tue` gets the wrong days",
+           key=key_of_text(rid, fn.qual, "orderings"))
+
+
 def run(ctx: Ctx):
     repo = ctx.repo
     avail = repo.func("ResourceScenario.available")
@@ -372,6 +457,8 @@ def run(ctx: Ctx):
     # ---------------------------------------------------------------- R02.8 memo-key soundness in the calendar decision
     memo_rule(ctx, "R02.8")
     blocked_interval_rule(ctx, "R02.13")
+    day_range_rule(ctx, "R02.14")
+    ctx.floor("R02.14", 5)
     # ---------------------------------------------------------------- R02.10 project-level working hours reach the default calendar
     # the grammar accepts `workinghours` as a project attribute and the builder stores it; the calendar used for resources
     # without hours of their own must consult it
